@@ -14,6 +14,138 @@ pub struct Case {
     pub cfg: WireConfig,
     pub ops: Vec<Op>,
     pub drain: Drain,
+    /// receive-task companion: is an address that HAS an exemption really exempt (and one without not)?
+    /// When present the wire schedule is not run.
+    #[serde(default)]
+    pub recv: Option<RecvExempt>,
+}
+
+/// One source address (IPv4, IPv6, IPv6 with a scope id and/or flow label as link-local peers have),
+/// optionally banned and/or over its quota; datagrams arrive from it while an exemption for its
+/// (normalised) address is present and after it was taken away.
+#[derive(Clone, Debug, PartialEq, Eq, Hash, Serialize, Deserialize)]
+pub struct RecvExempt {
+    /// 0 IPv4, 1 IPv6, 2 IPv6 link-local with scope id, 3 IPv6 with flow label, 4 both
+    pub addr_kind: u8,
+    pub ban_ip: bool,
+    pub ban_node: bool,
+    /// unsolicited datagrams sent first to use up the quota (per-IP burst is 2)
+    pub warmup: u8,
+    /// exemption count while "waiting" (1..3)
+    pub count: u8,
+    /// packet kind of the judged datagrams: 0 message, 1 handshake, 2 WHOAREYOU
+    pub kind: u8,
+}
+
+async fn run_recv(c: &RecvExempt, rep: &mut CaseReport) -> Option<(String, String)> {
+    use discv5::{
+        enr::NodeId,
+        packet::{PacketKind, ProtocolIdentity},
+        socket::{verif::{VDelivered, VRecv}, FilterConfig, RateLimiterBuilder},
+        verif::{packet_encode, VPacket, PERMIT_BAN_LIST},
+    };
+    use std::net::{IpAddr, Ipv4Addr, Ipv6Addr, SocketAddrV6};
+    use std::time::Duration;
+    *PERMIT_BAN_LIST.write() = Default::default();
+    let hour = Duration::from_secs(3600);
+    let rl = RateLimiterBuilder::new().total_n_every(50, hour).ip_n_every(2, hour).node_n_every(2, hour).build().expect("quota");
+    let cfg = FilterConfig { enabled: true, rate_limiter: Some(rl), max_nodes_per_ip: None, max_bans_per_ip: None };
+    let local = NodeId::new(&[0x66u8; 32]);
+    let Ok(mut r) = VRecv::spawn(cfg, Some(hour), local).await else {
+        return Some(("HARNESS/vrecv-spawn".into(), "could not start the receive task".into()));
+    };
+    // the address as the handler knows it (scope id and flow label zeroed) and as datagrams arrive
+    let (known, arriving): (SocketAddr, SocketAddr) = match c.addr_kind % 5 {
+        0 => {
+            let a = SocketAddr::new(IpAddr::V4(Ipv4Addr::new(10, 13, 0, 7)), 30313);
+            (a, a)
+        }
+        1 => {
+            let a = SocketAddr::new(IpAddr::V6(Ipv6Addr::new(0x2001, 0xdb8, 0, 13, 0, 0, 0, 7)), 30313);
+            (a, a)
+        }
+        k => {
+            let ip = Ipv6Addr::new(0xfe80, 0, 0, 0, 0, 0, 0x13, 7);
+            let (flow, scope) = match k {
+                2 => (0, 3),
+                3 => (0x12345, 0),
+                _ => (7, 2),
+            };
+            (SocketAddr::V6(SocketAddrV6::new(ip, 30313, 0, 0)), SocketAddr::V6(SocketAddrV6::new(ip, 30313, flow, scope)))
+        }
+    };
+    let node = NodeId::new(&[0x31u8; 32]);
+    let mut seq = 0u64;
+    let mut send = |r: &mut VRecv, kind: u8| -> [u8; 12] {
+        seq += 1;
+        let mut nonce = [0u8; 12];
+        nonce[..8].copy_from_slice(&seq.to_be_bytes());
+        let pk = match kind % 3 {
+            0 => PacketKind::Message { src_id: node },
+            1 => PacketKind::Handshake { src_id: node, id_nonce_sig: vec![7u8; 64], ephem_pubkey: vec![2u8; 33], enr_record: None },
+            _ => PacketKind::WhoAreYou { id_nonce: [9u8; 16], enr_seq: 1 },
+        };
+        let message = if kind % 3 == 2 { vec![] } else { vec![0x5Au8; 24] };
+        let bytes = packet_encode(VPacket { iv: seq as u128, message_nonce: nonce, protocol_identity: ProtocolIdentity::default(), kind: pk, message }, &local);
+        let _ = r.inbound.send((arriving, bytes));
+        nonce
+    };
+    let settle = || async {
+        for _ in 0..3 {
+            tokio::time::sleep(Duration::from_millis(1)).await;
+        }
+    };
+    let handed_on = |out: &Vec<VDelivered>, nonce: [u8; 12]| out.iter().any(|d| matches!(d, VDelivered::Packet { message_nonce, .. } if *message_nonce == nonce));
+    // use up the quota / get banned first (unsolicited traffic)
+    for _ in 0..c.warmup.min(6) {
+        send(&mut r, 0);
+        settle().await;
+        r.take_delivered();
+    }
+    {
+        let mut l = PERMIT_BAN_LIST.write();
+        if c.ban_ip {
+            l.ban_ips.insert(known.ip(), None);
+        }
+        if c.ban_node {
+            l.ban_nodes.insert(node, None);
+        }
+    }
+    let hostile = c.ban_ip || c.ban_node || c.warmup >= 3 || PERMIT_BAN_LIST.read().ban_ips.contains_key(&known.ip());
+    rep.class("receive-task-companion");
+    rep.class(format!("receive-task-companion/source-kind-{}", c.addr_kind % 5));
+    // while the node is waiting for something from that address, its datagrams pass
+    r.expected_responses.write().insert(known, c.count.clamp(1, 3) as usize);
+    for _ in 0..3 {
+        let n = send(&mut r, c.kind);
+        settle().await;
+        let out = r.take_delivered();
+        if !handed_on(&out, n) {
+            return Some((
+                "exemption/not-effective-in-the-receive-task".into(),
+                format!("an exemption for {known} is present (the node is waiting for {} item(s) from it), but a datagram arriving from {arriving} was not handed to the handler (ip banned {}, node banned {}, {} unsolicited datagrams before)", c.count.clamp(1, 3), c.ban_ip, c.ban_node, c.warmup),
+            ));
+        }
+    }
+    if hostile {
+        rep.nontrivial = true;
+        rep.class("receive-task-companion/exemption-overrides-ban-or-quota");
+    }
+    // nothing outstanding any more: the address is treated like any other
+    r.expected_responses.write().remove(&known);
+    if c.ban_ip || (c.ban_node && c.kind % 3 != 2) {
+        let n = send(&mut r, c.kind);
+        settle().await;
+        let out = r.take_delivered();
+        if handed_on(&out, n) {
+            return Some((
+                "exemption/effective-without-entry".into(),
+                format!("no exemption for {known} is present and the source is banned, but a datagram arriving from {arriving} was handed to the handler"),
+            ));
+        }
+    }
+    *PERMIT_BAN_LIST.write() = Default::default();
+    None
 }
 
 pub struct C13;
@@ -136,22 +268,38 @@ impl Property for C13 {
     }
     fn strategy(tier: Tier) -> BoxedStrategy<Case> {
         let n = tier.pick(40usize, 100usize);
-        (wire_gen::config_strategy(true), prop_oneof![Just(Drain::Answering), Just(Drain::Silent)])
+        let wire_cases = (wire_gen::config_strategy(true), prop_oneof![Just(Drain::Answering), Just(Drain::Silent)])
             .prop_flat_map(move |(cfg, drain)| {
                 let np = cfg.n_peers;
                 (Just(cfg), wire_gen::ops_strategy(np, wire_gen::Mix::Exemptions, n), Just(drain))
             })
-            .prop_map(|(cfg, ops, drain)| Case { cfg, ops, drain })
-            .boxed()
+            .prop_map(|(cfg, ops, drain)| Case { cfg, ops, drain, recv: None });
+        let wire = wire_cases;
+        let companion = (wire_gen::config_strategy(false), 0u8..5, any::<bool>(), any::<bool>(), 0u8..6, 1u8..=3, 0u8..3).prop_map(|(cfg, addr_kind, ban_ip, ban_node, warmup, count, kind)| Case {
+            cfg,
+            ops: vec![],
+            drain: Drain::None,
+            recv: Some(RecvExempt { addr_kind, ban_ip, ban_node, warmup, count, kind }),
+        });
+        prop_oneof![60 => wire, 1 => companion].boxed()
     }
     fn run(case: &Case) -> CaseReport {
         let mut rep = CaseReport::default();
+        if let Some(rc) = &case.recv {
+            let rt = tokio::runtime::Builder::new_current_thread().enable_all().start_paused(true).build().expect("runtime");
+            let v = rt.block_on(run_recv(rc, &mut rep));
+            drop(rt);
+            if let Some((s, d)) = v {
+                rep.fail(s, d);
+            }
+            return rep;
+        }
         let mut o = Exemptions::default();
         run_case_blocking(case.cfg.clone(), &case.ops, case.drain, &mut o, &mut rep);
         rep
     }
     fn rule() -> String {
-        "schedules (<=40 quick / <=100 thorough ops) over 2..4 real handlers on the virtual wire with a paused clock: requests of all kinds in all directions (with and without a known record), single- and multi-packet answers, drops / duplicates / reordering / delays, who-are-you queries and requests answered immediately or held, peer restarts, plus adversarial ops (undecryptable probes, forged handshakes with valid and invalid signatures / ephemeral keys / records, replays, mutated datagrams, forged WHOAREYOUs echoing in-flight, stale or random nonces, requests to attacker-held addresses), packet filter on and off; every schedule ends with a drain (answering or silent network, time advanced by 2 x (retries+2) request timeouts). After EVERY step, for every handler and every socket address: exemption count = number of active request calls to that address + number of outstanding challenges to it (probe snapshot); after the drain no exemption remains when nothing is outstanding. Non-trivial = an adversarial/faulty datagram was processed while the exemption map was non-empty.".into()
+        "schedules (<=40 quick / <=100 thorough ops) over 2..4 real handlers on the virtual wire with a paused clock: requests of all kinds in all directions (with and without a known record), single- and multi-packet answers, drops / duplicates / reordering / delays, who-are-you queries and requests answered immediately or held, peer restarts, plus adversarial ops (undecryptable probes, forged handshakes with valid and invalid signatures / ephemeral keys / records, replays, mutated datagrams, forged WHOAREYOUs echoing in-flight, stale or random nonces, requests to attacker-held addresses), packet filter on and off; every schedule ends with a drain (answering or silent network, time advanced by 2 x (retries+2) request timeouts). After EVERY step, for every handler and every socket address: exemption count = number of active request calls to that address + number of outstanding challenges to it (probe snapshot); after the drain no exemption remains when nothing is outstanding. One case in 61 is a receive-task companion (the real handle_inbound behind a channel, filter on, per-IP and per-node burst 2): a source address (IPv4, IPv6, link-local IPv6 arriving with a scope id and/or flow label) that is banned and/or over its quota sends message / handshake / WHOAREYOU datagrams while an exemption for its normalised address is present (all must be handed to the handler) and after it was removed (a banned source must be refused again). Non-trivial = an adversarial/faulty datagram was processed while the exemption map was non-empty.".into()
     }
     fn assumptions() -> Vec<String> {
         vec![
